@@ -118,8 +118,17 @@ func NewNode(cfg NodeCfg) *Node {
 	n.App.SetBlockstore(n.BS)
 	n.App.SetTxIndexer(n.Idx)
 	n.Vals = map[int64][]ValEntry{}
-	n.Time = GenesisTime
+	n.Time = n.genesisTime()
 	return n
+}
+
+// genesisTime: block time of height 0. Default 2015 (before the real clock); a script may move it (e.g. to 2040, after
+// the real clock) so that the same history runs with block timestamps on the other side of the local wall clock.
+func (n *Node) genesisTime() time.Time {
+	if n.Cfg.Gen.GenesisUnix != 0 {
+		return time.Unix(n.Cfg.Gen.GenesisUnix, 0).UTC()
+	}
+	return GenesisTime
 }
 
 func sortVals(v []ValEntry) {
@@ -154,7 +163,7 @@ func applyUpdates(prev []ValEntry, ups []abci.ValidatorUpdate) []ValEntry {
 // InitChain runs Info + InitChain (a fresh chain). Returns the genesis validator updates.
 func (n *Node) InitChain() []abci.ValidatorUpdate {
 	n.App.Info(abci.RequestInfo{})
-	res := n.App.InitChain(abci.RequestInitChain{ChainId: n.Cfg.Gen.ChainID, Time: GenesisTime,
+	res := n.App.InitChain(abci.RequestInitChain{ChainId: n.Cfg.Gen.ChainID, Time: n.genesisTime(),
 		ConsensusParams: &abci.ConsensusParams{Block: &abci.BlockParams{MaxBytes: 4000000, MaxGas: -1}, Evidence: &abci.EvidenceParams{MaxAge: 1000000},
 			Validator: &abci.ValidatorParams{PubKeyTypes: []string{"ed25519"}}}})
 	v := applyUpdates(nil, res.Validators)
@@ -166,7 +175,7 @@ func (n *Node) InitChain() []abci.ValidatorUpdate {
 type EvidenceSpec struct {
 	Addr   string `json:"addr"` // validator (consensus) address hex
 	Height int64  `json:"height"`
-	Time   int64  `json:"time"` // unix seconds
+	Time   int64  `json:"time"` // seconds after the genesis time
 	Power  int64  `json:"power"`
 }
 
@@ -188,6 +197,7 @@ type TxRes struct {
 	Signer    string `json:"signer,omitempty"`
 	Recipient string `json:"recipient,omitempty"`
 	Hash      string `json:"hash"`
+	Data      string `json:"data,omitempty"`
 }
 
 type ValUpd struct {
@@ -257,7 +267,7 @@ func (n *Node) BeginBlock(b BlockSpec) {
 	for _, e := range b.Evidence {
 		a, _ := hex.DecodeString(e.Addr)
 		byz = append(byz, abci.Evidence{Type: tmtypes.ABCIEvidenceTypeDuplicateVote, Validator: abci.Validator{Address: a, Power: e.Power},
-			Height: e.Height, Time: time.Unix(e.Time, 0).UTC(), TotalVotingPower: 0})
+			Height: e.Height, Time: n.genesisTime().Add(time.Duration(e.Time) * time.Second), TotalVotingPower: 0})
 	}
 	n.cur = &curBlock{block: block, txs: raw}
 	n.App.BeginBlock(abci.RequestBeginBlock{Hash: block.Hash(), Header: tmtypes.TM2PB.Header(&block.Header),
@@ -276,7 +286,7 @@ func (n *Node) DeliverNext() TxRes {
 	if len(log) > 300 {
 		log = log[:300]
 	}
-	return TxRes{Code: r.Code, Codespace: r.Codespace, Log: log, Type: r.MessageType, Signer: hex.EncodeToString(r.Signer),
+	return TxRes{Code: r.Code, Codespace: r.Codespace, Log: log, Data: hex.EncodeToString(r.Data), Type: r.MessageType, Signer: hex.EncodeToString(r.Signer),
 		Recipient: hex.EncodeToString(r.Recipient), Hash: hex.EncodeToString(tmtypes.Tx(bz).Hash())}
 }
 
